@@ -60,13 +60,32 @@ inline long rsys(long n, long a = 0, long b = 0, long c = 0, long d = 0) {
     return syscall(n, a, b, c, d);
 }
 
+// one file has many names: relative to the working directory, with redundant separators and "." components, through a symbolic link
+static std::string norm_path(const char *p) {
+    std::string s;
+    if (p[0] != '/') { char cwd[1024]; long n = rsys(SYS_getcwd, (long) cwd, (long) sizeof cwd); if (n > 0) { s = cwd; s += '/'; } }
+    s += p;
+    std::string o;
+    for (size_t i = 0; i < s.size(); i++) {
+        if (s[i] == '/' && !o.empty() && o[o.size() - 1] == '/') continue;                                  // "//"
+        if (s[i] == '.' && !o.empty() && o[o.size() - 1] == '/' && (i + 1 == s.size() || s[i + 1] == '/')) { i++; continue; }   // "/./"
+        o += s[i];
+    }
+    return o;
+}
+
 bool is_sim_path(const char *p) {
     if (!g_dir || !p) return false;
     size_t n = g_dir->size();
-    return n > 0 && strncmp(p, g_dir->c_str(), n) == 0;
+    if (n == 0) return false;
+    if (strncmp(p, g_dir->c_str(), n) == 0 && !strstr(p, "//") && !strstr(p, "/./")) return true;
+    if (p[0] == '/' && strncmp(p, g_dir->c_str(), n < 8 ? n : 8) != 0) return false;      // cheap exit for the usual foreign path
+    return strncmp(norm_path(p).c_str(), g_dir->c_str(), n) == 0;
 }
 
-int path_index(const char *p0, bool create) {
+int path_index(const char *p00, bool create) {
+    std::string np = norm_path(p00);
+    const char *p0 = np.c_str();
     // a symbolic link inside the simulation directory stands for its target: both names are one file
     char target[512];
     const char *p = p0;
